@@ -272,7 +272,7 @@ def u_get_writer(ctx, prior):
     pid = ctx.fresh_int("patch_id", lo=0, hi=32767)
     name = "C02/CatalogWriter.get_writer"
     with Patches() as pt:
-        pt.set(C, "PatchWriter", lambda path, *, chunk_info, buffersize: WriterTok(str(path), chunk_info, buffersize, log))
+        pt.set(C, "PatchWriter", lambda cache_path, *, chunk_info, buffersize: WriterTok(str(cache_path), chunk_info, buffersize, log))
         ctx.canary()
         got = expect_no_exception(ctx, call(w.get_writer, pid), name)
         known = [k for k in before if bool(SBool(pid.t == k))]
